@@ -756,7 +756,14 @@ class MathExpression(object):
         if any(np.any(np.isnan(r)) for r in as_list):
             return float('nan')
 
-        return cast_np_numeric_as_builtin(result, map_across_lists=True)
+        result = cast_np_numeric_as_builtin(result, map_across_lists=True)
+        # The evaluator works in floating point: literals and variables are floats already, but
+        # functions (e.g. kronecker) and numpy integers can yield python integers, whose
+        # arithmetic is exact and unbounded (2^2^2^2^2 would be computed digit by digit
+        # instead of overflowing)
+        if isinstance(result, int) and not isinstance(result, bool):
+            result = float(result)
+        return result
 
     @staticmethod
     def eval_number(parse_result, suffixes):
